@@ -102,6 +102,9 @@ def gen_cases(tier):
             for sch in (False, True):
                 for lay in (("line", "multi") if n <= 2 else ("line",)):
                     cases.append({"fam": "C", "tabs": list(tabs), "schema": sch, "layout": lay})
+                    if lay == "line":
+                        # the same script behind a comment line that holds a lone apostrophe (quote-aware pre-processing must not lose its bearings)
+                        cases.append({"fam": "C", "tabs": list(tabs), "schema": sch, "layout": "glued", "apos": True})
     return cases
 
 
@@ -139,13 +142,18 @@ def build(case):
 ATTRS = ("name", "type", "size", "nullable", "default")
 
 
-def evaluate(case):
+def _ddl(case):
     ddl, exps = build(case)
+    return ("-- the customer's data\n" + ddl if case.get("apos") else ddl), exps
+
+
+def evaluate(case):
+    ddl, exps = _ddl(case)
     r = run_ddl(ddl)
     diffs = []
     if r[0] != "ok":
         return {"diffs": [diff("run", "raises", "result", r[1:3])], "outcome": "exc"}
-    res = r[1]
+    res = [e for e in r[1] if not (isinstance(e, dict) and set(e) == {"comments"})]
     tabs = [e for e in res if is_table(e)]
     if len(res) != len(exps) or len(tabs) != len(exps):
         diffs.append(diff("entities", "table-count", len(exps), short([e.get("table_name", "?") if isinstance(e, dict) else e for e in res])))
@@ -172,9 +180,9 @@ def features(case):
 
 
 def describe(case):
-    ddl, exps = build(case)
+    ddl, exps = _ddl(case)
     return {"ddl": ddl, "expected_columns": [c for _, _, cs in exps for c in cs][:4]}
 
 
 def snippet(case):
-    return _snip(build(case)[0])
+    return _snip(_ddl(case)[0])
